@@ -1,8 +1,206 @@
 import ShVerif.Model.C04
 import ShVerif.Proofs.C04
 /-
-  C04 — Simplify preserves behaviour.  Property theorems.
+  C04 — Simplify preserves behaviour.  Property theorems (statements are fixed; helper lemmas live
+  in ShVerif/Proofs/C04.lean).  Where the unchanged code violates the property the full statement
+  is kept as `def …_statement : Prop`, refuted on a concrete witness (`…_counterexample`) and
+  proved under the exact extra hypothesis (`…_partial`).
 -/
 namespace ShVerif.C04
+
+/-! ## Double-quoted literals → single quotes (`simplifyWord`) -/
+
+/-- Full statement: whenever `"lit"` / `$"lit"` is rewritten to `'nv'` / `$'nv'`, the new word denotes
+    the same string.  False for `$"…"` (finding C04-dollar-dq). -/
+def word_sem_statement : Prop :=
+  ∀ (dollar : Bool) (lit nv v : Bytes),
+    rewriteDq lit = some nv → dqValue lit = some v → sqValue dollar nv = v
+
+/-- Holds for plain double quotes: the scanner implements exactly the double-quote escape rules. -/
+theorem word_sem_partial (lit nv v : Bytes)
+    (h : rewriteDq lit = some nv) (hv : dqValue lit = some v) : sqValue false nv = v := by
+  unfold rewriteDq at h
+  cases hs : dqToSq lit with
+  | none => simp [hs] at h
+  | some nv' =>
+    simp only [hs] at h
+    split at h
+    · simp at h
+    · have e : nv' = nv := by simpa using h
+      rw [← e]
+      exact dqScan_value lit false nv' v hs (by simpa using hv)
+
+/-- `$"a\\n"` becomes `$'a\n'`: the two characters backslash, `n` turn into a newline. -/
+theorem word_sem_counterexample : ¬ word_sem_statement := by
+  intro h
+  have := h true [97, 92, 92, 110] [97, 92, 110] [97, 92, 110] (by decide) (by decide)
+  revert this
+  decide
+
+/-- The literal is only rewritten when it cannot change: no `'` in it, and every backslash it has
+    is one the double quotes remove. -/
+theorem word_no_single_quote (lit nv : Bytes) (h : dqToSq lit = some nv) : (39 : UInt8) ∉ nv := by
+  have key : ∀ (l : Bytes) (esc : Bool) (r : Bytes), dqScan esc l = some r → (39 : UInt8) ∉ r := by
+    intro l
+    induction l with
+    | nil => intro esc r h; simp [dqScan] at h; subst h; simp
+    | cons b bs ih =>
+      intro esc r h
+      simp only [dqScan] at h
+      by_cases hb : b = 92
+      · subst hb
+        cases esc with
+        | false => simp at h; exact ih true r h
+        | true =>
+          simp at h
+          obtain ⟨r', hr', rfl⟩ := h
+          have := ih false r' hr'
+          simp [this]
+      · simp only [hb, if_false] at h
+        by_cases hq : b = 39
+        · simp [hq] at h
+        · simp only [hq, if_false] at h
+          split at h
+          · simp at h
+            obtain ⟨r', hr', rfl⟩ := h
+            have := ih false r' hr'
+            simp [this, Ne.symm hq]
+          · split at h
+            · simp at h
+            · simp at h
+              obtain ⟨r', hr', rfl⟩ := h
+              have := ih false r' hr'
+              simp [this, Ne.symm hq]
+  exact key lit false nv h
+
+/-! ## `[[ ]]` rewrites (`removeParensTest`, `removeNegateTest`, `unquoteParams`, `=` → `==`) -/
+
+/-- Full statement: the simplified test expression evaluates like the original under every
+    semantics of strings, patterns and operators.  False when a quoted parameter expansion does not
+    mean the same without its quotes (finding C04-unquote-param-word). -/
+def test_sem_statement : Prop := ∀ (S : TSem) (x : Test), S.eval (Test.top x) = S.eval x
+
+theorem test_sem_partial (S : TSem) (x : Test) (h : x.QuoteInsensitive S) :
+    S.eval (Test.top x) = S.eval x := eval_top S x h
+
+/-- A semantics in which parameter 0 is `${a:-'x'}` with `a` unset: quoted it yields `'x'`,
+    unquoted `x`. -/
+def quoteSensitiveSem : TSem where
+  pval := fun q _ => if q then [39, 120, 39] else [120]
+  wval := fun _ => [120]
+  wpat := fun _ => ([120], true)
+  patMatch := fun p s => p.1 == s
+  reMatch := fun p s => p.1 == s
+  unOp := fun _ _ => false
+  binOp := fun _ _ _ => false
+
+theorem test_sem_counterexample : ¬ test_sem_statement := by
+  intro h
+  have := h quoteSensitiveSem (.bin tsMatch (.quoted 0) (.other 0))
+  revert this
+  decide
+
+/-- The quoting rule of `==`, `!=`, `=~`: their right-hand side is never unquoted (it would turn a
+    literal into a pattern), every other word operand is. -/
+theorem test_rhs_kept (f op : Nat) (a b : TWord) (h : op = tsMatch ∨ op = tsNoMatch ∨ op = tsReMatch) :
+    Test.walk (f + 1) (.bin op a b) = .bin op (Test.unqW a) b := by
+  rcases h with h | h | h <;> subst h <;> simp [Test.walk, Test.noUnquoteRhs, tsMatch, tsNoMatch, tsReMatch, tsMatchShort]
+
+theorem test_short_match (f : Nat) (a b : TWord) :
+    Test.walk (f + 1) (.bin tsMatchShort a b) = .bin tsMatch (Test.unqW a) b := by
+  simp [Test.walk, Test.noUnquoteRhs]
+
+/-- Simplify is not idempotent on tests: `[[ ! ! ! -n x ]]` gives `[[ ! -n x ]]`, a second run
+    gives `[[ -z x ]]` (the merged node is not looked at again). -/
+theorem test_not_idempotent :
+    Test.top (.not (.not (.not (.un tsNempStr (.other 0))))) = .not (.un tsNempStr (.other 0)) ∧
+    Test.top (.not (.un tsNempStr (.other 0))) = .un tsEmpStr (.other 0) := by
+  decide
+
+/-! ## Arithmetic (`removeParensArithm`, `inlineSimpleParams`) -/
+
+/-- Full statement for the interpreter (`expand.Arithm`): unconditional.  False: name chains of
+    exactly `maxNameRefDepth` links (finding C04-interp-nameref-depth). -/
+def arith_sem_statement : Prop :=
+  ∀ (P : Prims), P.Lawful → ∀ (env : Env) (e : Arith), e.WF P →
+    evalI P env e.top = evalI P env e
+
+/-- Holds whenever no variable holds a name (in particular when variables hold integers),
+    side effects included: the interpreter expands `$a` when the operand is evaluated. -/
+theorem arith_sem_partial (P : Prims) (hP : P.Lawful) (env : Env) (e : Arith) (hw : e.WF P)
+    (hE : env.NoNames) : evalI P env e.top = evalI P env e :=
+  (evalI_simpl P hP e hw env hE).1
+
+/-- The chain `a → aa → aaa → … → a¹⁰⁰ = 7`. -/
+def chainEnv : Env := fun n =>
+  if n.all (· == 97) && !n.isEmpty then (if n.length < 100 then 97 :: n else [55]) else []
+
+theorem arith_sem_counterexample : ¬ arith_sem_statement := by
+  intro h
+  have := h demoPrims demoPrims_lawful chainEnv (.dollar false [97]) trivial
+  have := congrArg (Option.map Prod.fst) this
+  revert this
+  decide +kernel
+
+/-- Full statement for bash with integer-valued variables.  False when the expression assigns a
+    variable it also reads through `$` (finding C04-arith-expansion-order). -/
+def arith_sem_bash_statement : Prop :=
+  ∀ (P : Prims) (env : IEnv) (e : Arith), e.WF P → evalBash P env e.top = evalBash P env e
+
+theorem arith_sem_bash_partial (P : Prims) (env : IEnv) (e : Arith) (hw : e.WF P)
+    (hd : ∀ n, n ∈ e.dollars → n ∉ e.assigned P) : evalBash P env e.top = evalBash P env e :=
+  (evalB_simpl P env e.dollars e hw (fun _ h => h) hd env (fun _ _ => rfl)).1
+
+/-- `a=1; $(( (a = 5) + $a ))` is 6, `$(( (a = 5) + a ))` is 10. -/
+theorem arith_sem_bash_counterexample : ¬ arith_sem_bash_statement := by
+  intro h
+  have := h demoPrims (fun _ => 1)
+    (.binary opAdd (.paren (.binary opAssgn (.lit [97]) (.lit [53]))) (.dollar false [97]))
+    (by simp [Arith.WF, demoPrims, opAdd, opAssgn, opAddAssgn])
+  have := congrArg (Option.map Prod.fst) this
+  revert this
+  decide
+
+/-- Redundant parentheses never matter, in any evaluator. -/
+theorem arith_strip_sem (P : Prims) (env : Env) (e : Arith) : evalI P env e.strip = evalI P env e := by
+  induction e with
+  | paren x ih => simpa [Arith.strip, evalI] using ih
+  | _ => rfl
+
+/-! ## Nested subshells (`inlineSubshell`) -/
+
+/-- `( ( S ) )` has the output, status and (non-)effects of `( S )`. -/
+theorem subshell_sem (f : Nat) (stmts : List Stmt) (s : ShState) :
+    runCmd (.sub (inlineSub f stmts)) s = runCmd (.sub stmts) s := runCmd_inlineSub f stmts s
+
+/-- `$( ( S ) )` captures the output and status of `$( S )`. -/
+theorem cmdsubst_sem (f : Nat) (stmts : List Stmt) (s : ShState) :
+    cmdSubst (inlineSub f stmts) s = cmdSubst stmts s := cmdSubst_inlineSub f stmts s
+
+/-- The side conditions matter: `( ! ( exit 3 ) )` has status 0, `( exit 3 )` has status 3. -/
+theorem subshell_negated_differs :
+    (runCmd (.sub [.mk true false (.sub [.mk false false (.exit 3)])]) ⟨fun _ => [], [], 0⟩).1.status = 0 ∧
+    (runCmd (.sub [.mk false false (.exit 3)]) ⟨fun _ => [], [], 0⟩).1.status = 3 ∧
+    inlineSub 5 [.mk true false (.sub [.mk false false (.exit 3)])] =
+      [.mk true false (.sub [.mk false false (.exit 3)])] := by
+  refine ⟨by rfl, by rfl, by rfl⟩
+
+/-! Non-vacuity -/
+example : rewriteDq [92, 36, 97] = some [36, 97] := by decide          -- "\$a" → '$a'
+example : dqValue [92, 36, 97] = some [36, 97] := by decide
+example : rewriteDq [97, 92, 110] = none := by decide                   -- "a\n" is left alone
+example : rewriteDq [105, 116, 39, 115, 92, 36] = none := by decide     -- "it's\$" is left alone
+example : (Arith.paren (.paren (.binary opAdd (.dollar true [97]) (.paren (.dollar false [98]))))).top
+    = .binary opAdd (.lit [97]) (.paren (.lit [98])) := by decide
+example : (Arith.dollar false [49]).top = .dollar false [49] := by decide   -- $1 is not inlined
+example : (Arith.binary opAdd (.lit [97]) (.lit [49])).WF demoPrims := by
+  simp [Arith.WF, demoPrims, opAdd, opAssgn, opAddAssgn]
+example : Env.NoNames (fun n => if n = [97] then [51] else []) := by
+  intro m; by_cases h : m = [97] <;> simp [h, validName] <;> decide
+example : Test.top (.paren (.not (.un tsEmpStr (.quoted 0)))) = .un tsNempStr (.bare 0) := by decide
+example : Test.top (.not (.bin tsMatch (.quoted 0) (.quoted 1))) = .bin tsNoMatch (.bare 0) (.quoted 1) := by
+  decide
+example : inlineSub 9 [.mk false false (.sub [.mk false false (.sub [.mk false false (.echo [97])])])]
+    = [.mk false false (.echo [97])] := by rfl
 
 end ShVerif.C04
